@@ -288,6 +288,18 @@ def check(ctx):
             else:
                 ctx.undecided(f"rank of mask {canon(node.args[0])} at line {node.lineno} not inferred")
 
+    # the duplicate look-up compares the point with every filled row: the whole table, or the rows up to and including the
+    # high-water mark ([: Xn + 1]); a shorter slice never finds the most recently logged point
+    xparam_names = {p_ for p_ in rec.params if p_ != "self"}
+    for node in ast.walk(rec.node):
+        if not (isinstance(node, ast.Compare) and len(node.ops) == 1 and isinstance(node.ops[0], ast.Eq)):
+            continue
+        for side, other in ((node.left, node.comparators[0]), (node.comparators[0], node.left)):
+            if isinstance(side, ast.Subscript) and self_attr_of(side.value) in arrays and isinstance(side.value, ast.Attribute) and isinstance(side.slice, ast.Slice) and isinstance(other, ast.Name) and other.id in xparam_names:
+                sl = side.slice
+                up = canon(sl.upper) if sl.upper is not None else None
+                full = sl.lower is None and sl.step is None and (up is None or up in ("(1 + self.Xn)", "(1 + self.X_max_idx)"))
+                ctx.check(full, rec, node, f"look-up scans {canon(side)} (all filled rows)", f"the duplicate look-up scans only {canon(side)}: rows up to and including index Xn are filled, so the most recently logged point is never matched (a repeat of it is logged as a new record / not merged)", construct=f"look-up range {canon(side)}")
     # ---------------------------------------------------------- path groups
     returns = [n for n in cfg.nodes if n.kind == "stmt" and isinstance(n.stmt, ast.Return)]
     row_stores = []  # (attr, target, value, stmt, kind)
